@@ -759,6 +759,114 @@ theorem wfScope_pushFilters : ∀ p : Plan, wfScope (pushFilters p) = wfScope p 
   | other n f c => rfl
   | _ => simp_all [pushFilters, wfScope]
 
+theorem handedOn_sub_names : ∀ (items : List Item) (v : String), v ∈ handedOn items →
+    v ∈ items.map itemName := by
+  intro items
+  induction items with
+  | nil => intro v h; simp [handedOn] at h
+  | cons it rest ih =>
+    intro v h
+    obtain ⟨e, al⟩ := it
+    cases al with
+    | some a =>
+      simp only [handedOn, List.mem_cons] at h
+      rcases h with h | h
+      · subst h; simp [itemName]
+      · exact List.mem_cons_of_mem _ (ih v h)
+    | none =>
+      cases e with
+      | var x =>
+        simp only [handedOn, List.mem_cons] at h
+        rcases h with h | h
+        · subst h; simp [itemName]
+        · exact List.mem_cons_of_mem _ (ih v h)
+      | _ =>
+        simp only [handedOn] at h
+        exact List.mem_cons_of_mem _ (ih v h)
+
+/-- **`collect_output_variables` no longer over-reports** (after cc52572), except at an `Aggregate`
+with a computed grouping expression, which `wfScope` excludes: every reported variable is a
+column. Proved for all plans, no bound. -/
+theorem noOver_of_wfScope : ∀ q : Plan, wfScope q = true → noOver q = true := by
+  intro q
+  have mem : ∀ (q : Plan), noOver q = true ↔ ∀ v ∈ outVars q, v ∈ cols q := by
+    intro q
+    simp [noOver, List.all_eq_true]
+  induction q with
+  | scan v lb => intro _; simp [noOver, outVars, cols]
+  | scanIn v lb i ih =>
+    intro h
+    simp only [wfScope] at h
+    have := (mem i).mp (ih h)
+    apply (mem _).mpr
+    intro x hx
+    simp only [outVars, List.mem_cons] at hx
+    simp only [cols, List.mem_append, List.mem_singleton]
+    rcases hx with hx | hx
+    · exact Or.inr hx
+    · exact Or.inl (this x hx)
+  | expand s i ih =>
+    intro h
+    simp only [wfScope] at h
+    have := (mem i).mp (ih h)
+    apply (mem _).mpr
+    intro x hx
+    simp only [outVars, List.mem_cons, List.mem_append] at hx
+    simp only [cols, expandCols, List.mem_append, List.mem_singleton]
+    rcases hx with hx | hx | hx
+    · exact Or.inr (Or.inl (Or.inr hx))
+    · exact Or.inr (Or.inl (Or.inl hx))
+    · exact Or.inl (this x hx)
+  | filter pr i ih => intro h; simp only [wfScope] at h; simpa [noOver, outVars, cols] using ih h
+  | limit n i ih => intro h; simp only [wfScope] at h; simpa [noOver, outVars, cols] using ih h
+  | skip n i ih => intro h; simp only [wfScope] at h; simpa [noOver, outVars, cols] using ih h
+  | sort k i ih => intro h; simp only [wfScope] at h; simpa [noOver, outVars, cols] using ih h
+  | distinct c i ih => intro h; simp only [wfScope] at h; simpa [noOver, outVars, cols] using ih h
+  | project items i _ =>
+    intro _
+    apply (mem _).mpr
+    intro x hx
+    simp only [outVars] at hx
+    simp only [cols]
+    exact handedOn_sub_names items x hx
+  | ret d items i _ =>
+    intro _
+    apply (mem _).mpr
+    intro x hx
+    simp only [outVars] at hx
+    simp only [cols]
+    exact handedOn_sub_names items x hx
+  | join ty cs l r ihl ihr =>
+    intro h
+    simp only [wfScope, Bool.and_eq_true] at h
+    have hl := (mem l).mp (ihl h.1.2)
+    have hr := (mem r).mp (ihr h.2)
+    apply (mem _).mpr
+    intro x hx
+    cases ty <;> simp only [outVars, List.mem_append] at hx <;> simp only [cols, List.mem_append]
+    case semi => exact hl x hx
+    case anti => exact hl x hx
+    all_goals
+      rcases hx with hx | hx
+      · exact Or.inl (hl x hx)
+      · exact Or.inr (hr x hx)
+  | agg gb aggs hv i _ =>
+    intro h
+    simp only [wfScope, Bool.and_eq_true] at h
+    apply (mem _).mpr
+    intro x hx
+    simp only [outVars, List.mem_append] at hx
+    simp only [cols, List.mem_append]
+    rcases hx with hx | hx
+    · have := List.all_eq_true.mp h.1 x hx
+      simpa using this
+    · right
+      simp only [aggAliases, List.mem_filterMap] at hx
+      obtain ⟨a, ha, hal⟩ := hx
+      simp only [List.mem_map]
+      exact ⟨a, ha, by simp [aggName, hal]⟩
+  | other n f c => intro _; simp [noOver, outVars]
+
 /-- a clean projection list that `passes_through` a variable hands it through in the semantics -/
 theorem passThrough_of_clean {items : List Item} {below : List String} {v : String}
     (hc : itemsClean items = true) (hp : passesThrough items v = true) :
@@ -854,16 +962,16 @@ theorem pushOK_of_wfScope (pred : Expr) : ∀ p : Plan, wfScope p = true → pus
     · rfl
   | expand s i ih =>
     intro h
-    simp only [wfScope, Bool.and_eq_true] at h
+    simp only [wfScope] at h
     simp only [pushOK]
     split
     · rename_i hu
       simp only [Bool.and_eq_true]
-      refine ⟨?_, ih h.2⟩
+      refine ⟨?_, ih h⟩
       apply List.all_eq_true.mpr
       intro v hv
       have h1 := List.all_eq_true.mp hu v hv
-      have h2 := List.all_eq_true.mp h.1 v (by simpa using h1)
+      have h2 := List.all_eq_true.mp (noOver_of_wfScope i h) v (by simpa using h1)
       simp only [Bool.or_eq_true, List.contains_eq_mem, decide_eq_true_eq, Bool.not_eq_true',
         decide_eq_false_iff_not]
       exact Or.inl (by simpa using h2)
@@ -871,7 +979,8 @@ theorem pushOK_of_wfScope (pred : Expr) : ∀ p : Plan, wfScope p = true → pus
   | join ty cs l r ihl ihr =>
     intro h
     simp only [wfScope, Bool.and_eq_true] at h
-    obtain ⟨⟨⟨hover, hunder⟩, hl⟩, hr⟩ := h
+    obtain ⟨⟨hunder, hl⟩, hr⟩ := h
+    have hover := noOver_of_wfScope l hl
     simp only [pushOK]
     split
     · rename_i hu
@@ -925,8 +1034,8 @@ theorem wfPush_of_wfScope : ∀ p : Plan, wfScope p = true → wfPush p = true :
   | skip n i ih => intro h; simp only [wfScope] at h; simp only [wfPush]; exact ih h
   | sort k i ih => intro h; simp only [wfScope] at h; simp only [wfPush]; exact ih h
   | distinct c i ih => intro h; simp only [wfScope] at h; simp only [wfPush]; exact ih h
-  | expand s i ih => intro h; simp only [wfScope, Bool.and_eq_true] at h; simp only [wfPush]; exact ih h.2
-  | agg g a hv i ih => intro h; simp only [wfScope] at h; simp only [wfPush]; exact ih h
+  | expand s i ih => intro h; simp only [wfScope] at h; simp only [wfPush]; exact ih h
+  | agg g a hv i ih => intro h; simp only [wfScope, Bool.and_eq_true] at h; simp only [wfPush]; exact ih h.2
 
 /-- **C09, filter push-down on plans with exact scoping.** Wherever the variable analysis
 `collect_output_variables` is exact at the inputs of `Expand`s and the left inputs of joins, and
